@@ -21,6 +21,18 @@
 #include <cstdlib>
 #include <cstring>
 
+// Sanitizer defaults: distinguishable exit codes, no leak noise. These run during sanitizer start-up and must not be
+// instrumented themselves (this file is compiled without -fsanitize=thread and without -finstrument-functions).
+extern "C" __attribute__((used, visibility("default"), no_sanitize("address", "thread", "undefined"))) const char * __asan_default_options() {
+    return "exitcode=77:detect_leaks=0:abort_on_error=0:allocator_may_return_null=1:detect_stack_use_after_return=0";
+}
+extern "C" __attribute__((used, visibility("default"), no_sanitize("address", "thread", "undefined"))) const char * __ubsan_default_options() {
+    return "print_stacktrace=1:halt_on_error=1:exitcode=78";
+}
+extern "C" __attribute__((used, visibility("default"), no_sanitize("address", "thread", "undefined"))) const char * __tsan_default_options() {
+    return "exitcode=66:halt_on_error=0:report_signal_unsafe=0:second_deadlock_stack=0:history_size=4";
+}
+
 namespace osim {
 
 // ------------------------------------------------------------------ log
